@@ -20,6 +20,13 @@ Theorem C11_roundtrip : forall (C : codec) (lam : node -> result node), codec_ok
 Proof. intros C lam HC m t v. exact (roundtrip C lam HC m t v). Qed.
 Print Assumptions C11_roundtrip.
 
+(* renderings are injective on the values of a type, in every mode *)
+Theorem C11_render_injective : forall (C : codec) (lam : node -> result node), codec_ok C ->
+  forall m t v1 v2, has_type lam t v1 = true -> has_type lam t v2 = true ->
+  to_mich C m v1 = to_mich C m v2 -> v1 = v2.
+Proof. intros C lam HC m t v1 v2. exact (to_mich_injective C lam HC m t v1 v2). Qed.
+Print Assumptions C11_render_injective.
+
 (* the real Base58Check functions of pytezos (Codec/Base58.v, any sha256 with 32-byte output, the
    pinned table) satisfy the codec laws: round trip of C09 + the alphabet has no '%' *)
 Theorem C11_real_codec_ok : forall sha256, sha_ok sha256 -> codec_ok (real_codec sha256 table43).
